@@ -340,6 +340,68 @@ func runCrash(ctx *core.RunCtx) {
 		} else {
 			ctx.Count("outcome.ran", 1)
 		}
+	case "bin":
+		// binary chunks: string.dump of a generated program, 1-4 bytes corrupted (length fields, counts,
+		// type tags, opcodes alike), handed back to load() under limits.  Only loading is judged - what
+		// corrupted byte code does when it is run is outside every property (the manual says as much) -
+		// and loading has to end in a function, an error or a kill: no panic, no allocation sized by a
+		// made-up length field.
+		var src string
+		if g.Chance(1, 2) {
+			src, _ = genRich(g, richOpts{NoGC: true, AllowYield: true, NoYieldInProtected: true})
+		} else {
+			src = renderProgram(genSim(g, simOpts{mode: "close", coro: true, closeRun: true}))
+		}
+		clos, cerr, cpan := h.Compile("sim", src)
+		if cpan != nil {
+			failP("compile", cpan, "valid generated program")
+			return
+		}
+		if cerr != nil {
+			return
+		}
+		strlib := h.R.GlobalEnv().Get(rt.StringValue("string")).AsTable()
+		d := h.Call(strlib.Get(rt.StringValue("dump")), rt.FunctionValue(clos))
+		if d.Panic != nil || d.Err != nil || len(d.Values) != 1 {
+			ctx.Fail("C04", "C04.H", "harness", "string.dump failed: %s", d.String())
+			return
+		}
+		dumped, _ := d.Values[0].TryString()
+		bad, ops := corrupt(g, dumped)
+		if g.Chance(1, 3) && len(dumped) > 16 {
+			// aim at an 8-byte little-endian length field: make it huge
+			pos := g.Choose(len(dumped) - 8)
+			b := []byte(dumped)
+			copy(b[pos:], []byte{0xff, 0xff, 0xff, 0xff, 0xff, 0xff, 0xff, []byte{0x7f, 0xff, 0x00, 0x3f}[g.Choose(4)]})
+			bad, ops = string(b), fmt.Sprintf("huge-length@%d", pos)
+		}
+		ctx.Sample = fmt.Sprintf("-- binary chunk of %d bytes, corruption: %s\n%s", len(dumped), ops, src)
+		ctx.Shape = core.HashString(bad)
+		ctx.Count("fault.binary-chunk corruption", 1)
+		lim = rt.RuntimeResources{Cpu: 2000000, Memory: []uint64{100000, 1000000}[g.Choose(2)] + uint64(g.Choose(997))}
+		var ms0, ms1 goruntime.MemStats
+		goruntime.ReadMemStats(&ms0)
+		if ms0.HeapAlloc > 24<<20 {
+			goruntime.GC()
+			goruntime.ReadMemStats(&ms0)
+		}
+		var pan interface{}
+		term := rt.NewTerminationWith(nil, 0, true)
+		func() {
+			defer func() { pan = recover() }()
+			h.R.MainThread().CallContext(rt.RuntimeContextDef{HardLimits: lim}, func() error {
+				return rt.Call(h.R.MainThread(), h.R.GlobalEnv().Get(rt.StringValue("load")), []rt.Value{rt.StringValue(bad), rt.StringValue("x"), rt.StringValue("b")}, term)
+			})
+		}()
+		if pan != nil {
+			failP("load-binary", pan, "corruption: "+ops)
+			return
+		}
+		goruntime.ReadMemStats(&ms1)
+		if ms1.HeapSys > ms0.HeapSys && ms1.HeapSys-ms0.HeapSys > 64*lim.Memory+128<<20 {
+			ctx.Fail("C06", "C06.M3", "heap-growth:load-binary", "loading a corrupted binary chunk of %d bytes grew the Go heap by %d bytes under memory limit %d (%s)", len(bad), ms1.HeapSys-ms0.HeapSys, lim.Memory, ops)
+			return
+		}
 	case "lib", "lib-amp":
 		// lib-amp: the same grid with size arguments far beyond the memory limit; what comes back must
 		// fit under the limit (C06 M3) and come back promptly (C05 K6)
